@@ -38,7 +38,7 @@ ASSUMPTIONS = ["fake API / graph; all components healthy"]
 def budget(tier: str) -> dict[str, Any]:
     if tier == "quick":
         return {"shards": 8, "cases": 500}
-    return {"shards": 32, "cases": 8000, "hashseeds": [0, 1, 2, 3]}
+    return {"shards": 32, "cases": 4000, "hashseeds": [0, 1, 2, 3]}
 
 
 def gen(rng: Any, tier: str, i: int) -> Any:
